@@ -1,7 +1,7 @@
 """tools.translate: regenerate coq/Gen from the current /repo sources.  Each generator returns ({file: text}, meta)."""
 import importlib, json, os, traceback
 from .common import TranslateError
-GENERATORS = ['gen_regex', 'gen_history', 'gen_calls']
+GENERATORS = ['gen_regex', 'gen_history', 'gen_calls', 'gen_globals']
 
 def regenerate(outdir):
     """Writes changed files only (so make stays incremental).  Returns (errors, meta): errors = [(generator, message)]."""
